@@ -48,6 +48,12 @@ def cnt_lemmas(h):
     h.lemma('CNT bounds: base (m = 1)', ax, z3.And(CNT(kap, 1) >= 0, CNT(kap, 1) <= 0))
     h.lemma('CNT bounds: step', ax + [m >= 1, CNT(kap, m) >= 0, CNT(kap, m) <= m - 1], z3.And(CNT(kap, m + 1) >= 0, CNT(kap, m + 1) <= m))
     h.lemma('CNT monotone: base (j = i)', ax + [i >= 1], CNT(kap, i) <= CNT(kap, i))
+    h.lemma('CNT positive if some row has the key: base (m = j + 1)', ax + [1 <= j, keyc(j) == kap, CNT(kap, j) >= 0], CNT(kap, j + 1) > 0)
+    h.lemma('CNT positive if some row has the key: step = monotone', ax + [1 <= j, j < m, CNT(kap, j + 1) > 0, CNT(kap, j + 1) <= CNT(kap, m)], CNT(kap, m) > 0)
+    h.lemma('CNT positive only if some row has the key: base (m = 1)', ax, z3.Not(CNT(kap, 1) > 0))
+    h.lemma('CNT positive only if some row has the key: step',
+            ax + [m >= 1, z3.Implies(CNT(kap, m) > 0, z3.Exists([j], z3.And(1 <= j, j < m, keyc(j) == kap))), CNT(kap, m + 1) > 0],
+            z3.Exists([j], z3.And(1 <= j, j < m + 1, keyc(j) == kap)))
     h.lemma('CNT monotone: step (j -> j + 1)', ax + [1 <= i, i <= j, CNT(kap, i) <= CNT(kap, j)], CNT(kap, i) <= CNT(kap, j + 1))
 
 
